@@ -37,7 +37,7 @@ NOTES = {
     "R3-C06-1": "WSGI transport + werkzeug's choice of Content-Type for a multipart body without files: the harnesses execute the requests transport only; the WSGI / ASGI transports are outside (stated in C06's evidence)",
     "R3-C14-1": "examples phase: get_strategies_from_examples merges the user's override container after the example container; no obligation executes that merge (add_examples is driven with prepared cases). Found too late to extend the check",
     "R3-C09-1": "caught because the harness replaces curl.quote by a placeholder and the change routes values through a new helper instead: what is detected is 'the command no longer quotes through shlex.quote', not the specific mis-escaping of $ inside double quotes",
-    "R3-C03-2": "the sub-agent ran the relevant test directories but not the full pinned suite for this change (time); my confirmation covers demo with/without and import",
+    "R3-C03-2": "the sub-agent had no time for the full pinned suite on this change; I ran it myself (tools/confirm_seed.py R3-C03-2: 1749/1750, only the environment-absent id missing)",
     "R3-C17-2": "same function as R2-C14-2 (get_parameters_strategy), other mechanism; missed because the harness listed the required parameter first - order optional-first added; the obligation now serves C17 as well",
     "R2-C05-2": "the unmodified C05 check missed it; the unmodified C09 check (failure_data_source, same function as round-1 seed C09-1) caught it; that obligation now also serves C05",
     "R2-C01-2": "detected by the C08 check (the property that states the merge rule); the C01 check does not cover parameter merging",
